@@ -48,7 +48,33 @@ def rename_tree(tree):
     handle(tree.body)
     return tree
 
-MODES = ('unparse', 'rename', 'shift', 'swapif', 'flipcmp', 'kwargs')
+MODES = ('unparse', 'rename', 'shift', 'swapif', 'flipcmp', 'kwargs', 'tempret')
+
+
+class TempRet(ast.NodeTransformer):
+    """return <expr>  ->  result_ = <expr>; return result_   (non-trivial expressions, outside lambdas / generators)"""
+    def _block(self, stmts):
+        out = []
+        for s_ in stmts:
+            if isinstance(s_, ast.Return) and s_.value is not None and not isinstance(s_.value, (ast.Name, ast.Constant)):
+                tmp = ast.Assign(targets=[ast.Name(id='result_', ctx=ast.Store())], value=s_.value)
+                out.append(ast.copy_location(tmp, s_))
+                out.append(ast.copy_location(ast.Return(value=ast.Name(id='result_', ctx=ast.Load())), s_))
+            else:
+                out.append(s_)
+        return out
+
+    def generic_visit(self, node):
+        super().generic_visit(node)
+        for fld in ('body', 'orelse', 'finalbody'):
+            v = getattr(node, fld, None)
+            if isinstance(v, list) and v and isinstance(v[0], ast.stmt):
+                setattr(node, fld, self._block(v))
+        if isinstance(node, ast.Try):
+            for h in node.handlers:
+                h.body = self._block(h.body)
+        return node
+
 
 
 class SwapIf(ast.NodeTransformer):
@@ -124,6 +150,8 @@ def make(mode, dst, root=None):
             new = ast.unparse(ast.fix_missing_locations(SwapIf().visit(ast.parse(src)))) + '\n'
         elif mode == 'flipcmp':
             new = ast.unparse(ast.fix_missing_locations(FlipCmp().visit(ast.parse(src)))) + '\n'
+        elif mode == 'tempret':
+            new = ast.unparse(ast.fix_missing_locations(TempRet().visit(ast.parse(src)))) + '\n'
         elif mode == 'kwargs':
             new = ast.unparse(ast.fix_missing_locations(kwargs_tree(ast.parse(src), sigs))) + '\n'
         else:
